@@ -138,7 +138,7 @@ pub mod ctxrules {
         String::from(Bytes::from_array(&Env, &[x]))
     }
     /// the delegated signers with these address ids
-    fn delegated(l: &List) -> SVec<Signer> {
+    pub fn delegated(l: &List) -> SVec<Signer> {
         let mut v = SVec::new(&Env);
         let mut k = 0;
         while k < CAP {
@@ -175,15 +175,23 @@ pub mod ctxrules {
         /// address ids of the policies
         pub pol: List,
     }
+    /// arbitrary pairwise different ids; the length is the CONCRETE `n` (every loop of the library over the list keeps
+    /// concrete bounds) or, with `n_lo < n`, symbolic in `n_lo..=n`
+    pub fn distinct_ids(n_lo: u32, n: u32) -> List {
+        let l = List::arb(n_lo, n);
+        kani::assume(l.nodup());
+        if n_lo == n {
+            l.with_len(n)
+        } else {
+            l
+        }
+    }
     /// slots 0..=2: Meta(id), Signers(id), Policies(id) of one rule: any id, any type, any 1-byte name, any expiry;
-    /// `ns` ARBITRARY pairwise different delegated signers (any address id), `np` ARBITRARY pairwise different policies,
-    /// each count symbolic in its range; at least one of them (the registry's invariant)
-    fn declare_rule(present: bool, ns_lo: u32, ns_hi: u32, np_lo: u32, np_hi: u32) -> Rule {
+    /// ARBITRARY pairwise different delegated signers (any address ids) and ARBITRARY pairwise different policies;
+    /// at least one of them (the registry's invariant)
+    pub fn declare_rule(present: bool, sig: List, pol: List) -> Rule {
         let id: u32 = kani::any();
         let ty = arb_rule_type();
-        let sig = List::arb(ns_lo, ns_hi);
-        let pol = List::arb(np_lo, np_hi);
-        kani::assume(sig.nodup() && pol.nodup());
         kani::assume(sig.n + pol.n > 0);
         let meta = Meta { name: arb_name(), context_type: ty.clone(), valid_until: Option::<u32>::arb() };
         model::declare_val(S_META, 0, &Key::Meta(id), present, &meta, kani::any());
@@ -193,7 +201,7 @@ pub mod ctxrules {
     }
     /// two ARBITRARY fingerprint entries, each present or absent: whichever fingerprints the call computes (of the rule
     /// before, of the rule after), each may or may not be on record (a superset of the reachable states)
-    fn declare_any_fingerprints() {
+    pub fn declare_any_fingerprints() {
         let h1 = BytesN::<32>::arb();
         let h2 = BytesN::<32>::arb();
         kani::assume(h1 != h2);
@@ -217,27 +225,23 @@ pub mod ctxrules {
     }
 
     // -------------------------------------------------------------------------------------------- add_policy (cap8)
-    /// "only if": whenever `add_policy` returns, the rule had fewer than MAX_POLICIES policies and has at most MAX_POLICIES now
+    /// "only if": a rule that holds MAX_POLICIES policies never gets one more (the call never returns normally), whatever
+    /// else is stored (rule present or not, 0..2 signers, any fingerprints on record, any answer of the policy)
     #[cfg(all(feature = "cap8", not(feature = "cap21")))]
     #[kani::proof]
     #[kani::unwind(98)]
     pub fn add_policy_policies_at_limit() {
         setup_world();
         let e = Env::default();
-        let r = declare_rule(kani::any(), 1, 1, MAX_POLICIES, MAX_POLICIES);
+        let r = declare_rule(kani::any(), distinct_ids(0, 2), distinct_ids(MAX_POLICIES, MAX_POLICIES));
         declare_any_fingerprints();
         let policy = Address::from_id(kani::any());
         let param = Val::arb();
-        witness!(r.present && r.pol.n == MAX_POLICIES && !r.pol.has(policy.id), "limit.new_policy_for_a_full_rule_is_tried");
+        witness!(r.present && r.sig.n == 2 && !r.pol.has(policy.id) && world().seq == 7, "limit.new_policy_for_a_full_rule_is_tried");
 
         sa::add_policy(&e, r.id, &policy, param);
 
-        prop!(r.pol.n + 1 <= MAX_POLICIES, "C20.ctxrules.add_policy.policies_limit_exact.not_exceeded");
-        let post = List::of_addr_slot(S_POLICIES);
-        prop!(post.n <= MAX_POLICIES && post.is_with(&r.pol, policy.id), "C20.ctxrules.add_policy.policies_limit_exact.not_exceeded_in_storage");
-        witness!(r.pol.n == MAX_POLICIES - 2, "limit.two_below_the_limit_accepted");
-        witness!(r.pol.n == MAX_POLICIES - 1 && r.sig.n == 2, "limit.fifth_policy_accepted");
-        end(5, 1);
+        prop!(false, "C20.ctxrules.add_policy.policies_limit_exact.not_exceeded");
     }
 
     fn add_policy_trap(code: u32) {
@@ -255,20 +259,252 @@ pub mod ctxrules {
         setup_world();
         let e = Env::default();
         ttl_representable();
-        let r = declare_rule(true, 0, 2, MAX_POLICIES - 1, MAX_POLICIES - 1);
+        let r = declare_rule(true, distinct_ids(1, 1), distinct_ids(MAX_POLICIES - 1, MAX_POLICIES - 1));
         let policy = Address::from_id(kani::any());
         let param = Val::arb();
         kani::assume(!r.pol.has(policy.id));
         pin_all_calls_return();
-        witness!(r.pol.n + 1 == MAX_POLICIES && r.sig.n == 0, "limit.call_reaching_exactly_the_documented_maximum_is_tried");
+        witness!(r.pol.n + 1 == MAX_POLICIES, "limit.call_reaching_exactly_the_documented_maximum_is_tried");
 
         unsafe { model::ON_TRAP = Some(add_policy_trap) };
         sa::add_policy(&e, r.id, &policy, param);
         unsafe { model::ON_TRAP = None };
 
         let post = List::of_addr_slot(S_POLICIES);
-        prop!(post.n == MAX_POLICIES && post.has(policy.id), "C20.ctxrules.add_policy.accepted_policy_is_stored");
-        witness!(post.n == MAX_POLICIES && r.sig.n == 2, "limit.fifth_policy_accepted");
+        prop!(post.is_with(&r.pol, policy.id), "C20.ctxrules.add_policy.accepted_policy_is_stored");
+        prop!(post.n <= MAX_POLICIES, "C20.ctxrules.add_policy.policies_limit_exact.not_exceeded_in_storage");
+        witness!(post.n == MAX_POLICIES, "limit.fifth_policy_accepted");
         end(3, 1);
+    }
+}
+
+#[cfg(all(feature = "xdrdigest", feature = "traphook", feature = "cap8"))]
+pub mod scratch {
+    use soroban_sdk::model::{self, world, CAP};
+    use soroban_sdk::{Address, Arb, Bytes, BytesN, Env, Flat, Map, String, Val, Vec as SVec};
+    use stellar_accounts::smart_account::{self as sa, MAX_POLICIES};
+    use crate::util::*;
+    use super::ctxrules::*;
+    #[kani::proof]
+    #[kani::unwind(98)]
+    pub fn p_setup() {
+        setup_world();
+        let r = declare_rule(kani::any(), distinct_ids(0, 2), distinct_ids(MAX_POLICIES, MAX_POLICIES));
+        declare_any_fingerprints();
+        witness!(r.present, "x");
+    }
+    #[kani::proof]
+    #[kani::unwind(98)]
+    pub fn p_get() {
+        setup_world();
+        let e = Env::default();
+        let r = declare_rule(kani::any(), distinct_ids(0, 2), distinct_ids(MAX_POLICIES, MAX_POLICIES));
+        declare_any_fingerprints();
+        let g = sa::get_context_rule(&e, r.id);
+        witness!(g.policies.len() == 5, "x");
+    }
+}
+#[cfg(all(feature = "xdrdigest", feature = "traphook", feature = "cap8"))]
+pub mod scratch2 {
+    use soroban_sdk::model::{self, world, CAP};
+    use soroban_sdk::xdr::ToXdr;
+    use soroban_sdk::{Address, Arb, Bytes, BytesN, Env, Flat, Map, String, Val, Vec as SVec};
+    use stellar_accounts::smart_account::{self as sa, MAX_POLICIES, Signer};
+    use crate::util::*;
+    use super::ctxrules::*;
+    #[kani::proof]
+    #[kani::unwind(98)]
+    pub fn p_sort_pol() {
+        let e = Env::default();
+        let pol = distinct_ids(5, 5).to_addr_vec();
+        let mut sorted = SVec::new(&e);
+        for p in pol.iter() {
+            match sorted.binary_search(&p) {
+                Ok(_) => kani::assume(false),
+                Err(pos) => sorted.insert(pos, p),
+            }
+        }
+        witness!(sorted.len() == 5, "x");
+    }
+    #[kani::proof]
+    #[kani::unwind(98)]
+    pub fn p_sort_sig() {
+        let e = Env::default();
+        let sig = delegated(&distinct_ids(5, 5));
+        let mut sorted = SVec::new(&e);
+        for p in sig.iter() {
+            match sorted.binary_search(&p) {
+                Ok(_) => kani::assume(false),
+                Err(pos) => sorted.insert(pos, p),
+            }
+        }
+        witness!(sorted.len() == 5, "x");
+    }
+    #[kani::proof]
+    #[kani::unwind(98)]
+    pub fn p_xdr() {
+        let e = Env::default();
+        let sig = delegated(&distinct_ids(5, 5));
+        let pol = distinct_ids(5, 5).to_addr_vec();
+        let mut d = sig.to_xdr(&e);
+        d.append(&pol.to_xdr(&e));
+        let h = e.crypto().sha256(&d).to_bytes();
+        witness!(h == BytesN::<32>::arb(), "x");
+    }
+}
+#[cfg(all(feature = "xdrdigest", feature = "traphook", feature = "cap8"))]
+pub mod scratch3 {
+    use soroban_sdk::model::{self, world, CAP};
+    use soroban_sdk::{Address, Arb, Bytes, BytesN, Env, Flat, Map, String, Val, Vec as SVec};
+    use stellar_accounts::smart_account::{self as sa, MAX_POLICIES};
+    use crate::util::*;
+    use super::ctxrules::*;
+    #[kani::proof]
+    #[kani::unwind(98)]
+    pub fn p_add_full() {
+        setup_world();
+        let e = Env::default();
+        let r = declare_rule(true, distinct_ids(1, 1), distinct_ids(MAX_POLICIES, MAX_POLICIES));
+        let policy = Address::from_id(kani::any());
+        witness!(r.present, "x");
+        sa::add_policy(&e, r.id, &policy, Val::arb());
+        prop!(false, "never");
+    }
+}
+#[cfg(all(feature = "xdrdigest", feature = "traphook", feature = "cap8"))]
+pub mod scratch4 {
+    use soroban_sdk::model::{self, world, CAP};
+    use soroban_sdk::{Address, Arb, Bytes, BytesN, Env, Flat, Map, String, Val, Vec as SVec};
+    use stellar_accounts::smart_account::{self as sa, MAX_POLICIES};
+    use stellar_accounts::policies::PolicyClient;
+    use crate::util::*;
+    use super::ctxrules::*;
+    fn stage(k: u32) {
+        setup_world();
+        let e = Env::default();
+        let r = declare_rule(true, distinct_ids(1, 1), distinct_ids(MAX_POLICIES, MAX_POLICIES));
+        let policy = Address::from_id(kani::any());
+        let rule = sa::get_context_rule(&e, r.id);
+        let mut policies = rule.policies.clone();
+        if policies.contains(&policy) { kani::assume(false); }
+        if k >= 1 {
+            PolicyClient::new(&e, &policy).install(&Val::arb(), &rule, &e.current_contract_address());
+        }
+        if k >= 2 {
+            policies.push_back(policy.clone());
+            if policies.len() > MAX_POLICIES { kani::assume(false); }
+            if k >= 3 { unreachable!(); }
+        }
+        witness!(policies.len() >= 5, "x");
+    }
+    #[kani::proof]
+    #[kani::unwind(98)]
+    pub fn p_a() { stage(0) }
+    #[kani::proof]
+    #[kani::unwind(98)]
+    pub fn p_b() { stage(1) }
+    #[kani::proof]
+    #[kani::unwind(98)]
+    pub fn p_c() { stage(3) }
+}
+#[cfg(all(feature = "xdrdigest", feature = "traphook", feature = "cap8"))]
+pub mod scratch5 {
+    use soroban_sdk::model::{self, world, CAP};
+    use soroban_sdk::{Address, Arb, Bytes, BytesN, Env, Flat, Map, String, Val, Vec as SVec};
+    use stellar_accounts::smart_account::{self as sa, MAX_POLICIES};
+    use crate::util::*;
+    use super::ctxrules::*;
+    fn heavy() {
+        let e = Env::default();
+        let sig = delegated(&distinct_ids(5, 5));
+        let mut sorted = SVec::new(&e);
+        for p in sig.iter() {
+            match sorted.binary_search(&p) {
+                Ok(_) => kani::assume(false),
+                Err(pos) => sorted.insert(pos, p),
+            }
+        }
+        witness!(sorted.len() == 5, "y");
+    }
+    #[kani::proof]
+    #[kani::unwind(98)]
+    pub fn p_len() {
+        setup_world();
+        let e = Env::default();
+        let r = declare_rule(true, distinct_ids(1, 1), distinct_ids(MAX_POLICIES, MAX_POLICIES));
+        let rule = sa::get_context_rule(&e, r.id);
+        if rule.policies.len() != 5 { heavy(); }
+        witness!(true, "x");
+    }
+    #[kani::proof]
+    #[kani::unwind(98)]
+    pub fn p_len2() {
+        setup_world();
+        let e = Env::default();
+        let r = declare_rule(true, distinct_ids(1, 1), distinct_ids(MAX_POLICIES, MAX_POLICIES));
+        let v = model::slot_val::<SVec<Address>>(2);
+        if v.len() != 5 { heavy(); }
+        witness!(true, "x");
+    }
+    #[kani::proof]
+    #[kani::unwind(98)]
+    pub fn p_len3() {
+        let v = distinct_ids(MAX_POLICIES, MAX_POLICIES).to_addr_vec();
+        if v.len() != 5 { heavy(); }
+        witness!(true, "x");
+    }
+}
+#[cfg(all(feature = "xdrdigest", feature = "traphook", feature = "cap8"))]
+pub mod scratch6 {
+    use soroban_sdk::model::{self, world, CAP};
+    use soroban_sdk::{Address, Arb, Bytes, BytesN, Env, Flat, Map, String, Val, Vec as SVec};
+    use stellar_accounts::smart_account::{self as sa, MAX_POLICIES, SmartAccountStorageKey as Key, Meta, Signer};
+    use crate::util::*;
+    use super::ctxrules::*;
+    fn heavy() {
+        let e = Env::default();
+        let sig = delegated(&distinct_ids(5, 5));
+        let mut sorted = SVec::new(&e);
+        for p in sig.iter() {
+            match sorted.binary_search(&p) {
+                Ok(_) => kani::assume(false),
+                Err(pos) => sorted.insert(pos, p),
+            }
+        }
+        witness!(sorted.len() == 5, "y");
+    }
+    #[kani::proof]
+    #[kani::unwind(98)]
+    pub fn p_g1() {
+        setup_world();
+        let e = Env::default();
+        let r = declare_rule(true, distinct_ids(1, 1), distinct_ids(MAX_POLICIES, MAX_POLICIES));
+        let v: Option<SVec<Address>> = e.storage().persistent().get(&Key::Policies(r.id));
+        if v.unwrap().len() != 5 { heavy(); }
+        witness!(true, "x");
+    }
+    #[kani::proof]
+    #[kani::unwind(98)]
+    pub fn p_g2() {
+        setup_world();
+        let e = Env::default();
+        let r = declare_rule(true, distinct_ids(1, 1), distinct_ids(MAX_POLICIES, MAX_POLICIES));
+        let k = Key::Policies(r.id);
+        let v: Option<SVec<Address>> = e.storage().persistent().get(&k);
+        e.storage().persistent().extend_ttl(&k, 5, 10);
+        if v.unwrap().len() != 5 { heavy(); }
+        witness!(true, "x");
+    }
+    #[kani::proof]
+    #[kani::unwind(98)]
+    pub fn p_g3() {
+        setup_world();
+        let e = Env::default();
+        let r = declare_rule(true, distinct_ids(1, 1), distinct_ids(MAX_POLICIES, MAX_POLICIES));
+        let m: Option<Meta> = e.storage().persistent().get(&Key::Meta(r.id));
+        let k = Key::Policies(r.id);
+        let v: Option<SVec<Address>> = e.storage().persistent().get(&k);
+        if m.is_none() || v.unwrap().len() != 5 { heavy(); }
+        witness!(true, "x");
     }
 }
